@@ -88,6 +88,7 @@ func (m *RepoModel) ValidRefs(mm *Man) bool {
 
 // World couples one server under test with the models of its repositories.
 type World struct {
+	puts int // manifest pushes so far
 	R     *Run
 	H     http.Handler
 	U     *Universe
@@ -144,7 +145,10 @@ func ManifestURL(repo string, mm *Man, tag string) string {
 func (w *World) PutManifest(repo string, mm *Man, tag string) (Resp, bool) {
 	m := w.Repos[repo]
 	ok := m.ValidRefs(mm)
-	rs := w.Do(Req{Method: "PUT", URL: ManifestURL(repo, mm, tag), H: map[string]string{"Content-Type": mm.MT}, Body: mm.Raw})
+	// every third push is streamed (no Content-Length, as a chunked client sends it): nothing may depend on the
+	// announced length
+	w.puts++
+	rs := w.Do(Req{Method: "PUT", URL: ManifestURL(repo, mm, tag), H: map[string]string{"Content-Type": mm.MT}, Body: mm.Raw, UnknownLen: w.puts%3 == 2})
 	w.T("put %s/%s as %s=%d", repo, mm.Name, map[bool]string{true: tag, false: "digest"}[tag != ""], rs.Status)
 	if rs.Status == 201 {
 		m.Mans[mm.D] = mm
